@@ -354,27 +354,33 @@ Proof.
 Qed.
 
 (* ---------- one function ---------- *)
-Lemma func_ok_clean : forall fx fn, func_ok fx fn = true -> fx = true \/ clean_b 0 (f_body fn) = true.
+Lemma func_ok_clean : forall g fx fn, func_ok g fx fn = true -> fx = true \/ clean_b 0 (f_body fn) = true.
 Proof.
-  intros fx fn H. unfold func_ok in H. apply andb_true_iff in H. destruct H as [_ H].
-  apply orb_true_iff in H. exact H.
+  intros g fx fn H. unfold func_ok in H. apply andb_true_iff in H. destruct H as [H _].
+  apply andb_true_iff in H. destruct H as [_ H]. apply orb_true_iff in H. exact H.
 Qed.
 
-Lemma func_ok_tflag : forall fx fn, func_ok fx fn = true -> f_tflag fn = true -> is_term (f_body fn) = true.
+Lemma func_ok_tflag : forall g fx fn, func_ok g fx fn = true -> f_tflag fn = true -> is_term (f_body fn) = true.
 Proof.
-  intros fx fn H T. unfold func_ok in H. apply andb_true_iff in H. destruct H as [H _].
-  rewrite T in H. exact H.
+  intros g fx fn H T. unfold func_ok in H. apply andb_true_iff in H. destruct H as [H _].
+  apply andb_true_iff in H. destruct H as [H _]. rewrite T in H. exact H.
 Qed.
 
-Lemma body_steps : forall g fx gen k fn n o t out r,
-  (forall k, g k = true) -> func_ok fx fn = true ->
+Lemma func_ok_wrap : forall g fx fn, func_ok g fx fn = true -> cv_wrap2 g && wrapped (f_kind fn) = false.
+Proof.
+  intros g fx fn H. unfold func_ok in H. apply andb_true_iff in H. destruct H as [_ H].
+  destruct (cv_wrap2 g), (wrapped (f_kind fn)); simpl in *; auto.
+Qed.
+
+Lemma body_steps : forall g fx gen fn n o t out r,
+  (forall k, cv_fall g k = true) -> func_ok g fx fn = true ->
   exec_b fx gen n 0 (f_body fn) o = (t, out, r) ->
-  exists s', steps Open (t ++ finish g fx k (f_tflag fn) out) = Some s' /\
+  exists s', steps Open (t ++ finish g fx (f_kind fn) (f_tflag fn) out) = Some s' /\
              (final out = true -> s' = Done).
 Proof.
-  intros g fx gen k fn n o t out r Hg Hok E.
+  intros g fx gen fn n o t out r Hg Hok E.
   destruct (exec_inv fx gen n) as (_ & Ib & _).
-  pose proof (Ib 0 (f_body fn) o (func_ok_clean _ _ Hok)) as Hi. rewrite E in Hi.
+  pose proof (Ib 0 (f_body fn) o (func_ok_clean _ _ _ Hok)) as Hi. rewrite E in Hi.
   destruct Hi as (H1 & H2 & H3); simpl in *.
   destruct (term_sound fx gen n) as (_ & Tb & _).
   pose proof (Tb 0 (f_body fn) o) as Ht. rewrite E in Ht. unfold out_of in Ht; simpl in Ht.
@@ -385,32 +391,32 @@ Proof.
     + simpl. eexists; split; [reflexivity|auto].
   - rewrite (H3 eq_refl). simpl. eexists; split; [reflexivity|auto].
   - rewrite andb_false_r. simpl. eexists; split; [reflexivity|auto].
-  - eexists; split; [reflexivity|auto].
+  - rewrite (func_ok_wrap _ _ _ Hok). eexists; split; [reflexivity|auto].
   - eexists; split; [reflexivity|]. discriminate.
   - eexists; split; [reflexivity|]. discriminate.
 Qed.
 
 Lemma run_steps : forall g fx fn n o toks out,
-  (forall k, g k = true) -> func_ok fx fn = true -> run g fx fn n o = (toks, out) ->
+  (forall k, cv_fall g k = true) -> func_ok g fx fn = true -> run g fx fn n o = (toks, out) ->
   exists s', steps Closed toks = Some s' /\ (final out = true -> s' = Done).
 Proof.
   intros g fx fn n o toks out Hg Hok E. unfold run in E.
-  destruct (f_kind fn) as [c|i c] eqn:K.
+  destruct (f_kind fn) as [c w|i c] eqn:K.
   - destruct (exec_b fx false n 0 (f_body fn) o) as [[t out'] r] eqn:Eb.
-    injection E as <- <-. simpl.
+    injection E as <- <-. simpl. rewrite <- K.
     eapply body_steps; eassumption.
   - destruct o as [|c0 o'].
     { injection E as <- <-. simpl. eexists; split; [reflexivity|]. discriminate. }
     destruct (c_exc c0).
     { injection E as <- <-. simpl. eexists; split; [reflexivity|auto]. }
     destruct (exec_b fx (gen_allowed (KGen i c)) n 0 (f_body fn) o') as [[t out'] r] eqn:Eb.
-    injection E as <- <-. simpl.
+    injection E as <- <-. simpl. rewrite <- K.
     eapply body_steps; eassumption.
 Qed.
 
 (* a completed segment = start token, kids and lines, one end token *)
 Lemma seg_complete_shape : forall g fx fn n o toks out k kids,
-  (forall k, g k = true) -> func_ok fx fn = true -> run g fx fn n o = (toks, out) ->
+  (forall k, cv_fall g k = true) -> func_ok g fx fn = true -> run g fx fn n o = (toks, out) ->
   complete_seg k toks out = true -> Forall (fun n => clean n = true) kids ->
   exists s r b e, seg_at k toks = TStart s :: r /\ mids r kids = Some (b, e) /\
                   cleans b = true /\ e <> EPending.
@@ -454,15 +460,15 @@ Scheme xt_ind2 := Induction for xt Sort Prop
   with xts_ind2 := Induction for xts Sort Prop.
 Combined Scheme xt_mut from xt_ind2, xts_ind2.
 
-Lemma prog_ok_nth : forall fx prog f fn,
-  prog_ok fx prog = true -> nth_error prog f = Some fn -> func_ok fx fn = true.
+Lemma prog_ok_nth : forall g fx prog f fn,
+  prog_ok g fx prog = true -> nth_error prog f = Some fn -> func_ok g fx fn = true.
 Proof.
-  intros fx prog f fn H N. unfold prog_ok in H. rewrite forallb_forall in H.
+  intros g fx prog f fn H N. unfold prog_ok in H. rewrite forallb_forall in H.
   apply H. eapply nth_error_In; eassumption.
 Qed.
 
 Theorem program_node : forall g fx prog,
-  (forall k, g k = true) -> prog_ok fx prog = true ->
+  (forall k, cv_fall g k = true) -> prog_ok g fx prog = true ->
   (forall x, complete g fx prog x = true ->
      exists n, to_node g fx prog x = Some n /\ clean n = true /\
                forall t lt, word g fx t lt prog x = ev_cy t fx lt n) /\
@@ -476,7 +482,7 @@ Proof.
     destruct (IH Hk) as (ns & TN & CN & WN).
     destruct (nth_error prog f) as [fn|] eqn:Nf; [|discriminate].
     destruct (run g fx fn fuel o) as [toks out] eqn:R.
-    destruct (seg_complete_shape g fx fn fuel o toks out k ns Hg (prog_ok_nth _ _ _ _ Hp Nf) R Hc CN)
+    destruct (seg_complete_shape g fx fn fuel o toks out k ns Hg (prog_ok_nth _ _ _ _ _ Hp Nf) R Hc CN)
       as (s & r & b & e & Sg & M & Cb & Ee).
     assert (So : seg_of g fx prog f o fuel k = TStart s :: r).
     { unfold seg_of. rewrite Nf, R. exact Sg. }
@@ -498,16 +504,16 @@ Qed.
 (* the balance theorem: the word of every complete execution tree of every program is a Dyck
    word with matching function ids, line events inside their activation, ending with an empty
    stack; its nesting is the tree; one start and one end per segment *)
-Theorem program_events_balanced : forall fx prog x t lt,
-  prog_ok fx prog = true -> complete all_true fx prog x = true ->
-  exists n, to_node all_true fx prog x = Some n /\
-            word all_true fx t lt prog x = ev_cy t fx lt n /\
-            parse (word all_true fx t lt prog x) [] [] = Some [shape_of n] /\
-            count_class CStart (word all_true fx t lt prog x) = size n /\
-            count_class CEnd (word all_true fx t lt prog x) = size n.
+Theorem program_events_balanced : forall g fx prog x t lt,
+  (forall k, cv_fall g k = true) -> prog_ok g fx prog = true -> complete g fx prog x = true ->
+  exists n, to_node g fx prog x = Some n /\
+            word g fx t lt prog x = ev_cy t fx lt n /\
+            parse (word g fx t lt prog x) [] [] = Some [shape_of n] /\
+            count_class CStart (word g fx t lt prog x) = size n /\
+            count_class CEnd (word g fx t lt prog x) = size n.
 Proof.
-  intros fx prog x t lt Hp Hc.
-  destruct (program_node all_true fx prog (fun _ => eq_refl) Hp) as [P _].
+  intros g fx prog x t lt Hg Hp Hc.
+  destruct (program_node g fx prog Hg Hp) as [P _].
   destruct (P x Hc) as (n & TN & CN & WN).
   exists n. split; [exact TN|]. split; [apply WN|]. rewrite (WN t lt).
   split; [|apply one_start_one_end_per_activation; intros _; exact CN].
@@ -519,34 +525,34 @@ Definition w_prog (k : fkind) : list func := [Func k (BCons SExpr BNil) false].
 Definition w_tree : xt := XT 0 [Ch 0 true None; Ch 0 true None] 5 0 XNil.
 
 Theorem falloff_guard_necessary : forall g k,
-  g k = false ->
-  prog_ok false (w_prog k) = true /\ complete g false (w_prog k) w_tree = true /\
+  cv_fall g k = false -> cv_wrap2 g = false ->
+  prog_ok g false (w_prog k) = true /\ complete g false (w_prog k) w_tree = true /\
   word g false Legacy false (w_prog k) w_tree = [(KCall, 0)] /\
   well_nested (word g false Legacy false (w_prog k) w_tree) = false.
 Proof.
-  intros g k H.
+  intros g k H Hw.
   assert (W : word g false Legacy false (w_prog k) w_tree = [(KCall, 0)]).
-  { destruct k as [c|i c]; cbn; unfold falloff; rewrite H; reflexivity. }
-  split; [reflexivity|]. split; [|split; [exact W|rewrite W; reflexivity]].
-  destruct k as [c|i c]; cbn; unfold falloff; rewrite H; reflexivity.
+  { destruct k as [c w|i c]; cbn; unfold falloff; rewrite H; reflexivity. }
+  split; [cbn; rewrite Hw; reflexivity|]. split; [|split; [exact W|rewrite W; reflexivity]].
+  destruct k as [c w|i c]; cbn; unfold falloff; rewrite H; reflexivity.
 Qed.
 
 (* the seeded guard on list(genexpr): f0 calls the inlined generator expression f1, whose body
    (for: append) runs off its end *)
 Definition s_prog : list func :=
-  [Func (KFunc false) (BCons SExpr (BCons SReturn BNil)) true;
+  [Func (KFunc false false) (BCons SExpr (BCons SReturn BNil)) true;
    Func (KGen true true) (BCons (SLoop (BCons SExpr BNil) BNil) BNil) false].
 Definition s_tree : xt :=
   XT 0 [Ch 1 true None] 9 0
      (XCons (XT 1 [Ch 0 true None; Ch 0 true None; Ch 0 true None; Ch 0 false None] 9 0 XNil) XNil).
 
 Theorem seeded_guard_refuted :
-  prog_ok false s_prog = true /\
+  prog_ok g_not_inlined false s_prog = true /\
   complete g_not_inlined false s_prog s_tree = true /\
   word g_not_inlined false Legacy false s_prog s_tree = [(KCall, 0); (KCall, 1); (KRet, 0)] /\
   parse (word g_not_inlined false Legacy false s_prog s_tree) [] [] = None /\
-  word all_true false Legacy false s_prog s_tree = [(KCall, 0); (KCall, 1); (KRet, 1); (KRet, 0)] /\
-  parse (word all_true false Legacy false s_prog s_tree) [] [] = Some [Sh 0 [Sh 1 []]].
+  word as_is false Legacy false s_prog s_tree = [(KCall, 0); (KCall, 1); (KRet, 1); (KRet, 0)] /\
+  parse (word as_is false Legacy false s_prog s_tree) [] [] = Some [Sh 0 [Sh 1 []]].
 Proof. repeat split; reflexivity. Qed.
 
 (* ---------- an inlined generator expression is ONE activation ---------- *)
@@ -614,8 +620,9 @@ Qed.
 Lemma count_yield_finish : forall g fx k tf out, count_yield (finish g fx k tf out) = 0.
 Proof.
   intros g fx k tf out. destruct out as [|p|c| |]; simpl; try reflexivity.
-  - unfold falloff. destruct (g k && negb tf); reflexivity.
+  - unfold falloff. destruct (cv_fall g k && negb tf); reflexivity.
   - destruct (fx && p); reflexivity.
+  - destruct (cv_wrap2 g && wrapped k); reflexivity.
 Qed.
 
 Theorem inlined_single_segment : forall g fx fn n o c,
@@ -630,10 +637,10 @@ Proof.
 Qed.
 
 (* plain functions too *)
-Theorem function_single_segment : forall g fx fn n o c,
-  f_kind fn = KFunc c -> count_yield (fst (run g fx fn n o)) = 0.
+Theorem function_single_segment : forall g fx fn n o c w,
+  f_kind fn = KFunc c w -> count_yield (fst (run g fx fn n o)) = 0.
 Proof.
-  intros g fx fn n o c K. unfold run. rewrite K.
+  intros g fx fn n o c w K. unfold run. rewrite K.
   destruct (no_yield fx n) as (_ & Nb & _). pose proof (Nb 0 (f_body fn) o) as Hi.
   destruct (exec_b fx false n 0 (f_body fn) o) as [[t out] r]. unfold toks_of in Hi; simpl in *.
   rewrite count_yield_app, Hi, count_yield_finish. reflexivity.
@@ -641,10 +648,10 @@ Qed.
 
 (* the layout tokens the static tie reads off the generated C *)
 Theorem epilogue_fall_iff : forall g k tf,
-  In EFall (epilogue g k tf) <-> (g k = true /\ tf = false).
+  In EFall (epilogue g k tf) <-> (cv_fall g k = true /\ tf = false).
 Proof.
   intros g k tf. unfold epilogue, falloff.
-  destruct k; destruct (g _) eqn:G; destruct tf; simpl; split; intros H;
+  destruct k; destruct (cv_fall g _) eqn:G; destruct tf; simpl; split; intros H;
     try (destruct H as [H1 H2]; discriminate);
     repeat (destruct H as [H|H]; try discriminate); auto; try contradiction.
 Qed.
@@ -652,3 +659,17 @@ Qed.
 Theorem default_branch_node : forall f,
   seg_node f default_branch [] = Some (Node f SGenStart INil EReturn).
 Proof. reflexivity. Qed.
+
+(* ---------- finding: a raising cpdef function entered through its Python wrapper ---------- *)
+Definition c_prog : list func := [Func (KFunc true true) (BCons SRaise BNil) true].
+Definition c_tree : xt := XT 0 [] 5 0 XNil.
+
+Theorem cpdef_wrapper_double_unwind_refuted :
+  complete as_is false c_prog c_tree = true /\
+  word as_is false Legacy false c_prog c_tree = [(KCall, 0); (KRet, 0); (KRet, 0)] /\
+  parse (word as_is false Legacy false c_prog c_tree) [] [] = None /\
+  prog_ok as_is false c_prog = false /\
+  prog_ok wrap_fixed false c_prog = true /\
+  word wrap_fixed false Legacy false c_prog c_tree = [(KCall, 0); (KRet, 0)] /\
+  parse (word wrap_fixed false Legacy false c_prog c_tree) [] [] = Some [Sh 0 []].
+Proof. repeat split; reflexivity. Qed.
